@@ -573,6 +573,10 @@ func UnmarshalVectorYAML(value *yaml.Node) (*GeneralizedType, error) {
 	return t, nil
 }
 
+// The largest number of dimensions accepted for `dimensions: <count>`.
+// Every backend allocates per-dimension metadata, so the count has to be bounded.
+const maxArrayDimensionCount = 64
+
 func UnmarshalArrayYAML(value *yaml.Node) (*GeneralizedType, error) {
 	if value.Kind != yaml.MappingNode {
 		return nil, parseError(value, "an !array must be specified with field `items` and optionally `dimensions`")
@@ -599,6 +603,10 @@ func UnmarshalArrayYAML(value *yaml.Node) (*GeneralizedType, error) {
 
 				if err := v.DecodeWithOptions(&ndims, yaml.DecodeOptions{KnownFields: true}); err != nil {
 					return nil, err
+				}
+
+				if ndims < 0 || ndims > maxArrayDimensionCount {
+					return nil, parseError(v, "the number of array dimensions must be between 0 and %d", maxArrayDimensionCount)
 				}
 
 				dims := make(ArrayDimensions, ndims)
